@@ -1,10 +1,10 @@
 (* ===== P2.v ===== *)
-From Coq Require Import List Arith Bool Lia Permutation.
+From Coq Require Import List Arith Bool Lia Permutation NArith.
 Import ListNotations.
-Require Import Scope2 P1.
+Require Import Scope ScopeP1.
 
 Section P.
-Variable isnum : nat -> bool.
+Variable isnum : fid_t -> bool.
 Notation required := (required isnum).
 Notation covers := (covers isnum).
 Notation count := (count isnum).
@@ -47,7 +47,7 @@ Lemma covers_merge st e f c : wf st -> fred f = true -> In f st -> ~ In f e ->
   /\ covers st c && covers e c = false.
 Proof.
   intros [Hnd Hnum] Hfr Hf Hnfe He.
-  assert (Hreqf : required f = true) by (unfold Scope2.required; rewrite Hfr; reflexivity).
+  assert (Hreqf : required f = true) by (unfold Scope.required; rewrite Hfr; reflexivity).
   assert (Hfnum : isnum (fid f) = false) by (apply Hnum; auto).
   assert (Hide : forall i, In i (map fid e) <-> (In i (map fid st) /\ i <> fid f)).
   { intros i. rewrite !in_map_iff. split.
@@ -74,7 +74,7 @@ Proof.
     + intros i Hi. apply Hide. split; auto. intros ->. contradiction.
     + intros g Hg Hr. apply in_merge in Hg as [[Hg Hne] | [_ ->]].
       * apply H1; auto. apply He. auto.
-      * unfold Scope2.required in Hr. cbn in Hr. unfold fid in Hfnum. rewrite Hfnum in Hr. discriminate.
+      * unfold Scope.required in Hr. cbn in Hr. unfold fid in Hfnum. rewrite Hfnum in Hr. discriminate.
     + intros i Hi. apply H2, Hide in Hi as [Hi _]. exact Hi.
 Qed.
 
